@@ -123,8 +123,22 @@ class Gen:
         b = lambda: self.tick(self.bool_(env, d - 1))
         if k == 0:
             n = r.randrange(0, 4)
-            names = [self.fresh("t") for _ in range(n)]
-            binds = " ".join("(%s %s)" % (nm, e()) for nm in names)
+            # some bindings SHADOW a visible variable: a later initialiser that mentions the name then
+            # tells `let` (all initialisers outside the scope) from `let*`
+            visible = [nm for nm in self.vars_of(env, "int") if nm not in RESERVED]
+            names = []
+            for _ in range(n):
+                cand = [v for v in visible if v not in names]
+                names.append(r.choice(cand) if cand and r.random() < 0.4 else self.fresh("t"))
+            inits = []
+            for j, nm in enumerate(names):
+                earlier_shadowed = [x for x in names[:j] if x in visible]
+                if earlier_shadowed and r.random() < 0.7:
+                    # mentions a name that an EARLIER binding of this same let shadows
+                    inits.append("(+ %s %s)" % (r.choice(earlier_shadowed), e()))
+                else:
+                    inits.append(e())
+            binds = " ".join("(%s %s)" % (nm, i) for nm, i in zip(names, inits))
             return "(let (%s) %s)" % (binds, self.body(env + [(nm, "int") for nm in names], d - 1))
         if k == 1:
             n = r.randrange(0, 4)
@@ -274,7 +288,35 @@ class Gen:
                 # a bounded loop through tail calls
                 forms.append("(define (%s n acc) (if (= n 0) acc (%s (- n 1) (+ acc %s))))" % (nm, nm, self.int_(env + [("n", "int"), ("acc", "int")], 1)))
                 forms.append("(%s %d 0)" % (nm, r.randrange(0, 6)))
+            elif k < 0.68 and self.derived:
+                # a procedure whose TAIL expression is a let that shadows its parameters, with a later
+                # initialiser mentioning a name an earlier binding of the same let shadows
+                nm = self.fresh("s")
+                a, b = self.fresh("x"), self.fresh("x")
+                penv = env + [(a, "int"), (b, "int")]
+                i1 = self.int_(penv, 2)
+                i2 = "(+ %s %s)" % (a, self.int_(penv, 1))
+                body = r.choice(["(+ (* 10 %s) %s)" % (a, b), "(- %s %s)" % (b, a), "(list %s %s)" % (a, b)])
+                wrap = r.choice(["%s", "(if (< 0 1) %s 0)", "(begin 0 %s)", "(when #t %s)", "(cond (#f 0) (else %s))"])
+                forms.append("(define (%s %s %s) %s)" % (nm, a, b, wrap % ("(let ((%s %s) (%s %s)) %s)" % (a, i1, b, i2, body))))
+                forms.append("(%s %d %d)" % (nm, r.randrange(0, 9), r.randrange(0, 9)))
             elif k < 0.72:
+                # a tail loop whose operands create closures over the loop variables; the closures are
+                # called only after the loop has finished (each must still see its own iteration's binding)
+                nm = self.fresh("b")
+                style = r.randrange(3)
+                via_apply = self.spelling.get("call") == "apply"
+                def selfcall(a, b):
+                    return "(apply %s (list %s %s))" % (nm, a, b) if via_apply else "(%s %s %s)" % (nm, a, b)
+                if style == 0:
+                    forms.append("(define (%s n acc) (if (= n 0) acc %s))" % (nm, selfcall("(- n 1)", "(cons (lambda () n) acc)")))
+                elif style == 1:
+                    forms.append("(define (%s n acc) (if (= n 0) acc %s))" % (nm, selfcall("(- n 1)", "(cons (lambda (d) (+ n d)) acc)")))
+                else:
+                    forms.append("(define %s (lambda (n acc) (define (mk) (lambda () (* n 10))) (if (= n 0) acc %s)))" % (nm, selfcall("(- n 1)", "(cons (mk) acc)")))
+                arg = "" if style != 1 else " 100"
+                forms.append("(map (lambda (t) (t%s)) (%s %d '()))" % (arg, nm, r.randrange(1, 5)))
+            elif k < 0.76:
                 forms.append(self.list_(env, self.max_depth - 1))
             else:
                 forms.append(self.int_(env, self.max_depth))
